@@ -84,6 +84,9 @@ def main():
         meta["checks_against_change"] = det
         # 3. demo without the change
         sh("git checkout -- .", cwd=wt)
+        rcb, ob = sh("make -j8", cwd=wt, timeout=1800)
+        if rcb != 0:
+            meta["rebuild_clean"] = "FAILED " + ob[-300:]
         rc3, o3 = sh("sh %s %s" % (run, wt), cwd=src, timeout=1800)
         meta["demo_without_change_rc"] = rc3
         meta["demo_without_change_tail"] = o3[-300:]
